@@ -298,6 +298,59 @@ pub fn alphabet(name: &str) -> Vec<Op> {
             Op::Add(b(var(0), var(0))),
             Op::Add(b(var(0), var(1))),
         ],
+        "CASC" => {
+            // a union that improves the analysis datum of a class several levels below a parent which ALSO uses the
+            // absorbed class directly: the parent is queued for full re-canonicalisation and, through the cascade of
+            // datum changes, for an analysis-only update in the same rebuild
+            let d = || T { op: "d", args: vec![] };
+            let g2 = |x: T| u(u(x));
+            vec![
+                Op::Add(b(cc(), u(g2(d())))),
+                Op::Add(b(g2(d()), u(g2(d())))),
+                Op::Union(cc(), g2(d())),
+                Op::Add(b(h(0), u(g2(var(0))))),
+                Op::Add(b(g2(var(0)), u(g2(var(0))))),
+                Op::Union(h(0), g2(var(0))),
+                Op::Add(u(b(cc(), u(g2(d()))))),
+                Op::Union(d(), cc()),
+            ]
+        }
+        "SHADOW" => vec![
+            // one e-node in which a binder reuses the name of a slot that occurs free to its left (sum) or right (let)
+            Op::Add(sum(var(0), 0, 1, b(var(0), var(1)))),
+            Op::Add(sum(var(0), 2, 1, b(var(2), var(1)))), // alpha-equivalent to the first
+            Op::Add(sum(var(0), 2, 1, b(var(0), var(1)))), // different: the body uses the FREE slot
+            Op::Add(sum(var(0), 1, 0, b(var(1), var(0)))), // the inner binder shadows
+            Op::Add(let_(0, var(0), var(0))),
+            Op::Add(let_(1, var(1), var(0))), // alpha-equivalent
+            Op::Add(let_(1, var(0), var(0))), // different
+            Op::Union(sum(var(0), 0, 1, b(var(0), var(1))), h(0)),
+            Op::Union(sum(var(0), 2, 1, b(var(0), var(1))), cc()),
+            Op::Union(let_(0, var(0), var(0)), h(0)),
+        ],
+        "QSYM" => vec![
+            // a 4-slot class with two INDEPENDENT symmetries (two-level stabilizer chain) that then loses a slot moved by
+            // only one of them; a binder usage of the class
+            Op::Union(q4(0, 1, 2, 3), q4(1, 0, 2, 3)),
+            Op::Union(q4(0, 1, 2, 3), q4(0, 1, 3, 2)),
+            Op::Union(q4(0, 1, 2, 3), q4(1, 0, 3, 2)),
+            Op::Union(q4(0, 1, 2, 3), q4(2, 3, 0, 1)),
+            Op::Union(q4(0, 1, 2, 3), q4(0, 1, 2, 4)),
+            Op::Union(q4(0, 1, 2, 3), q4(4, 1, 2, 3)),
+            Op::Add(lam(100, q4(0, 1, 2, 100))),
+            Op::Add(u(q4(0, 1, 2, 3))),
+        ],
+        "CROSS" => vec![
+            // two parents in different classes that repeat a slot of a (to be) symmetric child; they become congruent only
+            // later, through a merge of their children (the alignment of their slots depends on canonical variants)
+            Op::Union(f(0, 1), f(1, 0)),
+            Op::Add(b(f(0, 1), h(0))),
+            Op::Add(b(g(1, 0), h(0))),
+            Op::Add(b(g(0, 1), h(0))),
+            Op::Union(f(0, 1), g(0, 1)),
+            Op::Union(f(0, 1), g(1, 0)),
+            Op::Add(b(f(1, 0), h(0))),
+        ],
         "SELFX" => vec![
             // a class equated with a term that contains a SHIFTED copy of itself next to a sibling, plus the unions
             // that later collapse the sibling's class (the redundancy then arrives through upward merging)
@@ -520,6 +573,36 @@ pub fn apply_op<N: Analysis<Sym>>(eg: &mut EGraph<Sym, N>, op: &Op, nm: Naming, 
         }
         Op::Add(t) => {
             add_t(eg, t, nm, rec);
+        }
+    }
+}
+
+/// The same under an arbitrary analysis (the answers of eq / slots / symmetries must not depend on it; with a
+/// non-trivial analysis the rebuild work list carries analysis-only entries next to full ones).
+pub fn run_and_observe_n<N: Analysis<Sym> + Default>(ops: &[Op], q: &Queries, nm: Naming) -> Obs {
+    let mut eg = EGraph::<Sym, N>::default();
+    let mut rec: Vec<(T, AppliedId)> = Vec::new();
+    let mut obs = Obs::default();
+    let mut pre = (0, 0, 0, 0, 0);
+    for (step, op) in ops.iter().enumerate() {
+        if step + 1 == ops.len() {
+            let p = eg.progress();
+            pre = (p.number_of_classes, p.number_of_live_classes, p.sum_of_slots, p.sum_of_symmetries, eg.total_number_of_nodes());
+        }
+        let r = catch(|| apply_op(&mut eg, op, nm, &mut rec));
+        if let Err(site) = r {
+            obs.panic = Some((step, site));
+            return obs;
+        }
+    }
+    match catch(|| observe(&eg, &rec, q, nm)) {
+        Ok(mut o) => {
+            o.last_op_changed = pre != (o.allocated, o.live, o.sum_slots, o.sum_syms, o.nodes);
+            o
+        }
+        Err(site) => {
+            obs.query_panic = Some(site);
+            obs
         }
     }
 }
